@@ -442,7 +442,11 @@ class db final {
     /// look at the child_indexes[], find the next mapped key value
     /// greater than the current one, and then look at its entry in
     /// the children[].
+#ifdef UNODB_DETAIL_VERIF_FIXED_ITER_STACK
+    detail::verif_fixed_stack<stack_entry> stack_{};
+#else
     std::stack<stack_entry> stack_{};
+#endif
 
     /// A buffer into which visited encoded (binary comparable) keys
     /// are materialized by during the iterator traversal.  Bytes are
